@@ -136,6 +136,8 @@ func NewMachine(c *gen.Case, r *rec.Recorder, o Opts) (*am.Machine, *InitJ, erro
 		Tracers:        []am.Tracer{r},
 		HandlerTimeout: ht,
 		QueueLimit:     QueueLimit,
+		// the backoff is switched on and off by the driver ("env" events)
+		HandlerBackoff: time.Hour,
 	})
 	r.Mach = m
 	if err := m.VerifyStates(index); err != nil {
@@ -262,6 +264,16 @@ func Run(c *gen.Case, o Opts) ([]any, error) {
 	lines = append(lines, r.Take()...) // transitions caused by construction
 	for i := range c.Calls {
 		call := &c.Calls[i]
+		if call.Ev == "env" {
+			if call.Backoff {
+				now := time.Now()
+				m.LastHandlerDeadline.Store(&now)
+			} else {
+				m.LastHandlerDeadline.Store(nil)
+			}
+			lines = append(lines, call)
+			continue
+		}
 		r.SetScript(scriptOf(call))
 		if call.Follows {
 			call.Predicted = lastRes
